@@ -15,7 +15,7 @@ RULE = ("E1 x E3: one storage with <= K deviations of its menu (efficiency, cost
 ASSUMPTIONS = ["charge / discharge per step are read from Results.x through the storage's dispatch rows (negative / positive part)",
                "R3 forward simulation of the physical level; tolerance 1e-6*(1+size)",
                "blocks = consecutive spans of block_size from the window start; level restarts at start_level in each block",
-               "max_store_duration: a run of steps with non-zero end-of-step level lasts at most that long (sum of step lengths)",
+               "max_store_duration: a run of steps with non-zero end-of-step level lasts at most that long (sum of step lengths; steps of the storage's own grid if it has one)",
                "reported fill level is compared inside the storage window; in block scenarios only when start level == end level",
                "a storage with its own coarser grid is active in its complete coarse steps; charge / discharge per portfolio step = share of the coarse variable"]
 EXPLANATION = "bounded exhaustive scenario enumeration; physical invariants and reported series checked on every solution"
@@ -62,9 +62,9 @@ def make_gen(tier):
             assets.append(dict(type="SimpleContract", name="mk2", nodes=["n2"], price="q", min_cap=S.r(-4.0, g), max_cap=S.r(4.0, g)))
             assets.append(dict(type="Transport", name="tr", nodes=["n1", "n2"], min_cap=0.0, max_cap=S.r(3.0, g)))
             sto = S.gen_storage(ch, g, "sto", ["n1", "n2"], dict(STO_FEATS, **STO_FREQ.get(gname, {})))
-        if sto.get("freq") and (sto.get("max_store_duration") is not None or sto.get("block_size") or sto.get("cost_store") or sto.get("wacc")):
-            # a storage on its own coarser grid: holding duration, blocks and holding costs are counted on ITS steps - not a
-            # statement about the steps of the portfolio grid; no claim for these combinations
+        if sto.get("freq") and (sto.get("block_size") or sto.get("cost_store") or sto.get("wacc")):
+            # a storage on its own coarser grid: blocks and holding costs are counted on ITS steps - not a
+            # statement about the steps of the portfolio grid; no claim for these combinations (the holding duration is judged on its steps)
             return None
         if sto.get("block_size") and sto.get("start"):
             from ref.grid import parse_instant
@@ -103,8 +103,10 @@ def run_case(case):
     a = [x for x in scn["assets"] if x["name"] == "sto"][0]
     g = Grid.from_json(scn["grid"])
     W = g.window(a.get("start"), a.get("end"), scn.get("date_tz"))
+    groups = None
     if a.get("freq"):
-        W = sorted(t for G in g.coarse(a.get("start"), a.get("end"), a["freq"], scn.get("date_tz")) for t in G)
+        groups = [list(G) for G in g.coarse(a.get("start"), a.get("end"), a["freq"], scn.get("date_tz"))]
+        W = sorted(t for G in groups for t in G)
     m = run.op.mapping
     x = np.asarray(run.res.x, float)
     sel = m[(m["asset"] == "sto") & (m["type"] == "d")]
@@ -121,7 +123,7 @@ def run_case(case):
         V.append(viol("c05.window", "storage has dispatch variables at steps %s, window is %s" % (sorted(set(charge)), W), tags, ["window"]))
         return res
     tol = 1e-6 * (1.0 + float(a["size"]) + max([abs(v) for v in charge.values()] + [abs(v) for v in discharge.values()] + [0.0]))
-    probs, lev, blocks = R3.check(a, g, W, charge, discharge, tol, scn.get("date_tz"))
+    probs, lev, blocks = R3.check(a, g, W, charge, discharge, tol, scn.get("date_tz"), groups=groups)
     ptags = [t for t in tags if t.startswith("param:Storage")]
     if a.get("block_size") and W:
         from ref.grid import _points, parse_instant
